@@ -186,6 +186,12 @@ impl TR {
             t => t,
         }
     }
+    fn base(&self) -> &str {
+        match self {
+            TR::Named(n) => n,
+            TR::List(t) | TR::NonNull(t) => t.base(),
+        }
+    }
 }
 
 /// Rust-side type of an argument or input field
@@ -259,6 +265,9 @@ fn ints(xs: &[i64]) -> V {
 }
 
 impl Table {
+    fn is_input(&self, n: &str) -> bool {
+        self.types.iter().any(|t| t.0 == n && matches!(t.1, NDef::Input { .. }))
+    }
     fn find(&self, n: &str) -> &NDef {
         &self.types.iter().find(|t| t.0 == n).unwrap_or_else(|| panic!("type {n}")).1
     }
@@ -828,8 +837,10 @@ impl<'a> G<'a> {
                 "Boolean" => self.rng.pick(&[V::Int(1), V::Str("true".into())]).clone(),
                 "ID" => self.rng.pick(&[V::Bool(true), V::Float("1.5".into())]).clone(),
                 "Color" => self.rng.pick(&[V::Str("PURPLE".into()), V::Int(0)]).clone(),
-                "Pick" => self.rng.pick(&[V::Obj(vec![]), V::Obj(vec![("a".into(), V::Int(1)), ("s".into(), V::Str("x".into()))]), V::Obj(vec![("a".into(), V::Null)])]).clone(),
-                _ => self.rng.pick(&[V::Int(3), V::Obj(vec![]), V::Obj(vec![("a".into(), V::Str("x".into()))]), V::Obj(vec![("a".into(), V::Int(1)), ("zz".into(), V::Int(1))])]).clone(),
+                // a non-object value (scalar, string, list) where an input object is expected:
+                // `is_valid_input_value` must refuse it (finding C06-non-object-passes-input-object-validation)
+                "Pick" => self.rng.pick(&[V::Obj(vec![]), V::Obj(vec![("a".into(), V::Int(1)), ("s".into(), V::Str("x".into()))]), V::Obj(vec![("a".into(), V::Null)]), V::Int(3), V::Str("a".into()), V::List(vec![])]).clone(),
+                _ => self.rng.pick(&[V::Int(3), V::Obj(vec![]), V::Obj(vec![("a".into(), V::Str("x".into()))]), V::Obj(vec![("a".into(), V::Int(1)), ("zz".into(), V::Int(1))]), V::Str("a".into()), V::Bool(true), V::List(vec![]), V::List(vec![V::Int(1)])]).clone(),
             },
         }
     }
@@ -937,6 +948,10 @@ fn gen_case(rng: &mut Rng, _i: usize, o: &Opts, dist: &mut Dist) -> Sexp {
             let v = if optional && roll < 18 {
                 g.dist.hit("arg_omitted");
                 continue;
+            } else if g.badvars && roll >= 45 && g.t.is_input(loc.base()) && g.rng.chance(1, 4) {
+                // an INVALID document: a non-object literal where an input object is expected
+                g.dist.hit("arg_literal_non_object_at_input_object");
+                g.rng.pick(&[V::Int(5), V::Str("a".into()), V::Bool(false), V::Enum("RED".into()), V::Float("1.5".into()), V::List(vec![]), V::List(vec![V::Int(1)])]).clone()
             } else if roll < 45 {
                 g.dist.hit("arg_whole_variable");
                 g.new_var(&loc, x.default.is_some())
